@@ -507,6 +507,254 @@ pub open spec fn file_spec(g: &Game, acc: Seq<u8>) -> Seq<u8> {
 	let a6 = match g.metadata { Some(m) => a5 + metadata_marker() + ubjson_map_bytes(&m) + seq![0x7du8], None => a5 };
 	a6 + seq![0x7du8]
 }
+// ------------------------------------------------------------------------------------------------
+// C17, mechanised: the raw element that file_spec lays out is exactly raw_formula(game) bytes long, i.e. the declared
+// raw length equals the actual length (so a reader that trusts the header finds the metadata key right after the events).
+pub open spec fn pres(d: &Data, i: int) -> int { if present(d, i) { 1 } else { 0 } }
+pub open spec fn port_pres(p: &PortData, i: int) -> int { pres(&p.leader, i) + (match p.follower { Some(f) => pres(&f, i), None => 0 }) }
+pub open spec fn ports_pres(ports: Seq<PortData>, k: int, i: int) -> int decreases k {
+	if k <= 0 { 0 } else { ports_pres(ports, k - 1, i) + port_pres(&ports[k - 1], i) }
+}
+// characters present, summed over the first n frame rows
+pub open spec fn pres_total(ports: Seq<PortData>, n: int) -> int decreases n {
+	if n <= 0 { 0 } else { pres_total(ports, n - 1) + ports_pres(ports, ports.len() as int, n - 1) }
+}
+pub open spec fn data_upto(d: &Data, n: int) -> int decreases n { if n <= 0 { 0 } else { data_upto(d, n - 1) + pres(d, n - 1) } }
+pub open spec fn port_upto(p: &PortData, n: int) -> int { data_upto(&p.leader, n) + (match p.follower { Some(f) => data_upto(&f, n), None => 0 }) }
+pub open spec fn ports_upto(ports: Seq<PortData>, k: int, n: int) -> int decreases k {
+	if k <= 0 { 0 } else { ports_upto(ports, k - 1, n) + port_upto(&ports[k - 1], n) }
+}
+pub proof fn lemma_pre_event_len(d: &Data, acc: Seq<u8>, v: Version, i: int, id: i32, port: Port, follower: bool)
+	ensures pre_event(d, acc, v, i, id, port, follower).len() == acc.len() + pres(d, i) * (7 + Pre::size_spec(v))
+{
+	if present(d, i) { d.pre.lemma_emit_len(acc + seq![0x37u8] + bytes_i32(id) + seq![port_byte(port)] + seq![if follower { 1u8 } else { 0u8 }], i, v); }
+}
+pub proof fn lemma_post_event_len(d: &Data, acc: Seq<u8>, v: Version, i: int, id: i32, port: Port, follower: bool)
+	ensures post_event(d, acc, v, i, id, port, follower).len() == acc.len() + pres(d, i) * (7 + Post::size_spec(v))
+{
+	if present(d, i) { d.post.lemma_emit_len(acc + seq![0x38u8] + bytes_i32(id) + seq![port_byte(port)] + seq![if follower { 1u8 } else { 0u8 }], i, v); }
+}
+pub proof fn lemma_port_pre_len(p: &PortData, acc: Seq<u8>, v: Version, i: int, id: i32)
+	ensures port_pre(p, acc, v, i, id).len() == acc.len() + port_pres(p, i) * (7 + Pre::size_spec(v))
+{
+	lemma_pre_event_len(&p.leader, acc, v, i, id, p.port, false);
+	let a = pre_event(&p.leader, acc, v, i, id, p.port, false);
+	match p.follower { Some(f) => { lemma_pre_event_len(&f, a, v, i, id, p.port, true); }, None => {} }
+	assert(port_pres(p, i) * (7 + Pre::size_spec(v)) == pres(&p.leader, i) * (7 + Pre::size_spec(v)) + (port_pres(p, i) - pres(&p.leader, i)) * (7 + Pre::size_spec(v))) by (nonlinear_arith);
+}
+pub proof fn lemma_port_post_len(p: &PortData, acc: Seq<u8>, v: Version, i: int, id: i32)
+	ensures port_post(p, acc, v, i, id).len() == acc.len() + port_pres(p, i) * (7 + Post::size_spec(v))
+{
+	lemma_post_event_len(&p.leader, acc, v, i, id, p.port, false);
+	let a = post_event(&p.leader, acc, v, i, id, p.port, false);
+	match p.follower { Some(f) => { lemma_post_event_len(&f, a, v, i, id, p.port, true); }, None => {} }
+	assert(port_pres(p, i) * (7 + Post::size_spec(v)) == pres(&p.leader, i) * (7 + Post::size_spec(v)) + (port_pres(p, i) - pres(&p.leader, i)) * (7 + Post::size_spec(v))) by (nonlinear_arith);
+}
+pub proof fn lemma_ports_pre_len(ports: Seq<PortData>, k: int, acc: Seq<u8>, v: Version, i: int, id: i32)
+	requires 0 <= k <= ports.len()
+	ensures ports_pre(ports, k, acc, v, i, id).len() == acc.len() + ports_pres(ports, k, i) * (7 + Pre::size_spec(v))
+	decreases k
+{
+	if k > 0 {
+		lemma_ports_pre_len(ports, k - 1, acc, v, i, id);
+		lemma_port_pre_len(&ports[k - 1], ports_pre(ports, k - 1, acc, v, i, id), v, i, id);
+		assert(ports_pres(ports, k, i) * (7 + Pre::size_spec(v)) == ports_pres(ports, k - 1, i) * (7 + Pre::size_spec(v)) + port_pres(&ports[k - 1], i) * (7 + Pre::size_spec(v))) by (nonlinear_arith)
+			requires ports_pres(ports, k, i) == ports_pres(ports, k - 1, i) + port_pres(&ports[k - 1], i);
+	}
+}
+pub proof fn lemma_ports_post_len(ports: Seq<PortData>, k: int, acc: Seq<u8>, v: Version, i: int, id: i32)
+	requires 0 <= k <= ports.len()
+	ensures ports_post(ports, k, acc, v, i, id).len() == acc.len() + ports_pres(ports, k, i) * (7 + Post::size_spec(v))
+	decreases k
+{
+	if k > 0 {
+		lemma_ports_post_len(ports, k - 1, acc, v, i, id);
+		lemma_port_post_len(&ports[k - 1], ports_post(ports, k - 1, acc, v, i, id), v, i, id);
+		assert(ports_pres(ports, k, i) * (7 + Post::size_spec(v)) == ports_pres(ports, k - 1, i) * (7 + Post::size_spec(v)) + port_pres(&ports[k - 1], i) * (7 + Post::size_spec(v))) by (nonlinear_arith)
+			requires ports_pres(ports, k, i) == ports_pres(ports, k - 1, i) + port_pres(&ports[k - 1], i);
+	}
+}
+pub proof fn lemma_items_emit_len(it: &Item, lo: int, hi: int, acc: Seq<u8>, v: Version, id: i32)
+	requires lo <= hi
+	ensures items_emit(it, lo, hi, acc, v, id).len() == acc.len() + (hi - lo) * (5 + Item::size_spec(v))
+	decreases hi - lo
+{
+	if hi > lo {
+		lemma_items_emit_len(it, lo, hi - 1, acc, v, id);
+		it.lemma_emit_len(items_emit(it, lo, hi - 1, acc, v, id) + seq![0x3Bu8] + bytes_i32(id), hi - 1, v);
+		assert((hi - lo) * (5 + Item::size_spec(v)) == (hi - 1 - lo) * (5 + Item::size_spec(v)) + (5 + Item::size_spec(v))) by (nonlinear_arith);
+	} else {
+		assert((hi - lo) * (5 + Item::size_spec(v)) == 0) by (nonlinear_arith) requires hi == lo;
+	}
+}
+// bytes one frame row adds
+pub open spec fn frame_row_len(f: &Frame, v: Version, i: int) -> int {
+	let np = ports_pres(f.ports@, f.ports@.len() as int, i);
+	(if v.ge(2, 2) { 5 + Start::size_spec(v) } else { 0 })
+	+ np * (7 + Pre::size_spec(v)) + np * (7 + Post::size_spec(v))
+	+ (if v.ge(3, 0) { (f.item_offset->Some_0@[i + 1] - f.item_offset->Some_0@[i]) * (5 + Item::size_spec(v)) + (5 + End::size_spec(v)) } else { 0 })
+}
+pub proof fn lemma_frame_emit_len(f: &Frame, acc: Seq<u8>, v: Version, i: int)
+	requires frame_wf(f, v), 0 <= i < f.id@.len()
+	ensures frame_emit(f, acc, v, i).len() == acc.len() + frame_row_len(f, v, i)
+{
+	let id = f.id.values_spec()[i];
+	if v.ge(2, 2) { f.start->Some_0.lemma_emit_len(acc + seq![0x3Au8] + bytes_i32(id), i, v); }
+	lemma_ports_pre_len(f.ports@, f.ports@.len() as int, frame_a1(f, acc, v, i), v, i, id);
+	if v.ge(3, 0) {
+		let o = f.item_offset->Some_0@;
+		assert(o[i] <= o[i + 1]);
+		lemma_items_emit_len(&f.item->Some_0, o[i] as int, o[i + 1] as int, frame_a2(f, acc, v, i), v, id);
+	}
+	lemma_ports_post_len(f.ports@, f.ports@.len() as int, frame_a3(f, acc, v, i), v, i, id);
+	if v.ge(3, 0) { f.end->Some_0.lemma_emit_len(frame_a4(f, acc, v, i) + seq![0x3Cu8] + bytes_i32(id), i, v); }
+}
+// bytes the first n frame rows add: per-kind counts times event sizes
+pub open spec fn frames_len(f: &Frame, v: Version, n: int) -> int {
+	(if v.ge(2, 2) { n * (5 + Start::size_spec(v)) } else { 0 })
+	+ pres_total(f.ports@, n) * (7 + Pre::size_spec(v)) + pres_total(f.ports@, n) * (7 + Post::size_spec(v))
+	+ (if v.ge(3, 0) { (f.item_offset->Some_0@[n] - f.item_offset->Some_0@[0]) * (5 + Item::size_spec(v)) + n * (5 + End::size_spec(v)) } else { 0 })
+}
+pub proof fn lemma_frames_emit_len(f: &Frame, n: int, acc: Seq<u8>, v: Version)
+	requires frame_wf(f, v), 0 <= n <= f.id@.len()
+	ensures frames_emit(f, n, acc, v).len() == acc.len() + frames_len(f, v, n)
+	decreases n
+{
+	if n > 0 {
+		lemma_frames_emit_len(f, n - 1, acc, v);
+		lemma_frame_emit_len(f, frames_emit(f, n - 1, acc, v), v, n - 1);
+		let np = ports_pres(f.ports@, f.ports@.len() as int, n - 1);
+		let pt = pres_total(f.ports@, n - 1);
+		let (a, b) = (7 + Pre::size_spec(v), 7 + Post::size_spec(v));
+		assert((pt + np) * a == pt * a + np * a && (pt + np) * b == pt * b + np * b) by (nonlinear_arith);
+		if v.ge(2, 2) { assert(n * (5 + Start::size_spec(v)) == (n - 1) * (5 + Start::size_spec(v)) + (5 + Start::size_spec(v))) by (nonlinear_arith); }
+		if v.ge(3, 0) {
+			let o = f.item_offset->Some_0@;
+			let c = 5 + Item::size_spec(v);
+			assert((o[n] - o[0]) * c == (o[n - 1] - o[0]) * c + (o[n] - o[n - 1]) * c) by (nonlinear_arith);
+			assert(n * (5 + End::size_spec(v)) == (n - 1) * (5 + End::size_spec(v)) + (5 + End::size_spec(v))) by (nonlinear_arith);
+		}
+	}
+}
+// summing presence row by row equals summing it character by character
+pub proof fn lemma_ports_upto_step(ports: Seq<PortData>, k: int, n: int)
+	requires 0 <= k <= ports.len(), n > 0
+	ensures ports_upto(ports, k, n) == ports_upto(ports, k, n - 1) + ports_pres(ports, k, n - 1)
+	decreases k
+{
+	if k > 0 { lemma_ports_upto_step(ports, k - 1, n); }
+}
+pub proof fn lemma_pres_total_by_character(ports: Seq<PortData>, n: int)
+	requires n >= 0
+	ensures pres_total(ports, n) == ports_upto(ports, ports.len() as int, n)
+	decreases n
+{
+	if n > 0 {
+		lemma_pres_total_by_character(ports, n - 1);
+		lemma_ports_upto_step(ports, ports.len() as int, n);
+	} else {
+		lemma_ports_upto_zero(ports, ports.len() as int);
+	}
+}
+pub proof fn lemma_ports_upto_zero(ports: Seq<PortData>, k: int)
+	requires 0 <= k <= ports.len()
+	ensures ports_upto(ports, k, 0) == 0
+	decreases k
+{
+	if k > 0 { lemma_ports_upto_zero(ports, k - 1); }
+}
+// a character's present rows among the first n == n minus the unset validity bits among them
+pub proof fn lemma_data_upto_count(d: &Data, n: int)
+	requires n >= 0, d.validity is Some ==> n <= d.validity->Some_0@.len()
+	ensures data_upto(d, n) == (match d.validity { Some(b) => n - count_false(b@.subrange(0, n)), None => n })
+	decreases n
+{
+	if n > 0 {
+		lemma_data_upto_count(d, n - 1);
+		match d.validity {
+			Some(b) => {
+				assert(b@.subrange(0, n).drop_last() =~= b@.subrange(0, n - 1));
+				assert(b@.subrange(0, n).last() == b@[n - 1]);
+			},
+			None => {},
+		}
+	} else {
+		match d.validity { Some(b) => { assert(b@.subrange(0, 0).len() == 0); }, None => {} }
+	}
+}
+pub proof fn lemma_ports_upto_is_present_count(ports: Seq<PortData>, k: int, n: nat)
+	requires 0 <= k <= ports.len(), validity_lens_ok(ports, n)
+	ensures ports_upto(ports, k, n as int) == ports_present_count(ports, k, n as int)
+	decreases k
+{
+	if k > 0 {
+		lemma_ports_upto_is_present_count(ports, k - 1, n);
+		let p = &ports[k - 1];
+		lemma_data_upto_count(&p.leader, n as int);
+		match p.leader.validity { Some(b) => { assert(b@.subrange(0, n as int) =~= b@); }, None => {} }
+		match p.follower {
+			Some(fo) => {
+				lemma_data_upto_count(&fo, n as int);
+				match fo.validity { Some(b) => { assert(b@.subrange(0, n as int) =~= b@); }, None => {} }
+			},
+			None => {},
+		}
+	}
+}
+pub proof fn lemma_table_emit_len(t: Seq<(u8, u16)>, k: int, acc: Seq<u8>)
+	requires 0 <= k <= t.len()
+	ensures table_emit(t, k, acc).len() == acc.len() + 3 * k
+	decreases k
+{
+	if k > 0 { lemma_table_emit_len(t, k - 1, acc); }
+}
+pub proof fn lemma_gecko_emit_len(c: &GeckoCodes, k: int, acc: Seq<u8>)
+	requires gecko_wf(c), 0 <= k <= gecko_blocks(c)
+	ensures gecko_emit(c, k, acc).len() == acc.len() + 517 * k
+	decreases k
+{
+	if k > 0 {
+		lemma_gecko_emit_len(c, k - 1, acc);
+		assert(512 * (k - 1) + 512 <= c.bytes@.len());
+	}
+}
+// the accumulator of file_spec after the last event of the raw element (everything up to, excluding, the metadata key)
+pub open spec fn raw_element_end(g: &Game, acc: Seq<u8>) -> Seq<u8> {
+	let t = payload_table_spec(g);
+	let a0 = acc + file_signature() + bytes_u32(raw_formula(g) as u32) + seq![0x35u8] + seq![(3 * t.len() + 1) as u8];
+	let a1 = table_emit(t, t.len() as int, a0);
+	let a2 = a1 + seq![0x36u8] + g.start.bytes.0@;
+	let a3 = match g.gecko_codes { Some(c) => gecko_emit(&c, gecko_blocks(&c), a2), None => a2 };
+	let a4 = frames_emit(&g.frames, g.frames.id@.len() as int, a3, ver(g));
+	match g.end { Some(e) => if double_end(g) { a4 + seq![0x39u8] + e.bytes.0@ + seq![0x39u8] + e.bytes.0@ } else { a4 + seq![0x39u8] + e.bytes.0@ }, None => a4 }
+}
+pub proof fn lemma_declared_raw_length_is_actual(g: &Game, acc: Seq<u8>)
+	requires game_wf(g), g.gecko_codes is Some ==> ver(g).ge(3, 3)
+	ensures
+		// 11 signature bytes + 4 length bytes, then the raw element: exactly raw_formula(g) bytes
+		raw_element_end(g, acc).len() == acc.len() + 15 + raw_formula(g) /*[C17.declared_length_is_actual_length]*/,
+		// and file_spec continues from there with the metadata key / closing brace
+		file_spec(g, acc) == (match g.metadata { Some(m) => raw_element_end(g, acc) + metadata_marker() + ubjson_map_bytes(&m) + seq![0x7du8], None => raw_element_end(g, acc) }) + seq![0x7du8] /*[C17.metadata_follows_the_raw_element]*/,
+{
+	let v = ver(g);
+	let t = payload_table_spec(g);
+	let n = g.frames.id@.len() as int;
+	let a0 = acc + file_signature() + bytes_u32(raw_formula(g) as u32) + seq![0x35u8] + seq![(3 * t.len() + 1) as u8];
+	lemma_table_emit_len(t, t.len() as int, a0);
+	let a1 = table_emit(t, t.len() as int, a0);
+	let a2 = a1 + seq![0x36u8] + g.start.bytes.0@;
+	let a3 = match g.gecko_codes { Some(c) => gecko_emit(&c, gecko_blocks(&c), a2), None => a2 };
+	match g.gecko_codes { Some(c) => { lemma_gecko_emit_len(&c, gecko_blocks(&c), a2); }, None => {} }
+	lemma_frames_emit_len(&g.frames, n, a3, v);
+	lemma_pres_total_by_character(g.frames.ports@, n);
+	lemma_ports_upto_is_present_count(g.frames.ports@, g.frames.ports@.len() as int, n as nat);
+	assert(pres_total(g.frames.ports@, n) == count_frame_data(g));
+	if v.ge(3, 0) {
+		let o = g.frames.item_offset->Some_0@;
+		assert(o[n] - o[0] == count_items(g));
+	}
+	match g.gecko_codes { Some(c) => { assert(517 * gecko_blocks(&c) == c.bytes@.len() / 512 * 517); }, None => {} }
+}
 //@fn src/io/slippi/ser.rs | - | write | ret=res | rules=R4d,R6
 	requires game_wf(game), raw_formula(game) <= 0xffff_ffff,
 	ensures
@@ -546,6 +794,7 @@ def template(repo):
         out.append('//@struct %s %s' % (REL, s))
         out.append(gen_codec.immutable_specs(L, s, with_from=False))
         out.append(gen_codec.immutable_fn_contracts(L, s, REL, REL_S, stub=True, only=('write', 'size', 'transpose_one')))
+    out.append(gen_codec.emit_len_lemmas(L))
     out.append(FRAME)
     out.append('} // verus!\nfn main() {}')
     return '\n'.join(out)
